@@ -252,7 +252,7 @@ def tail_to_acc(inner, wrapper):
 
 
 FOLD_HEAD = re.compile(
-    r"(?:\((?P<lo>\w+)\.\.(?P<hi>\w+)\)|(?P<recv>[A-Za-z_][\w\.]*(?:\(\))?)\s*\.iter\(\)(?P<en>\s*\.enumerate\(\))?)\s*\.(?P<m>try_fold|fold)\(")
+    r"(?:\((?P<lo>\w+)\.\.(?P<hi>\w+(?:\.\w+\([^()]*\))?)\)|(?P<recv>[A-Za-z_][\w\.]*(?:\(\))?)\s*\.iter\(\)(?P<en>\s*\.enumerate\(\))?)\s*\.(?P<m>try_fold|fold)\(")
 
 
 def rule_r16(body, hits, acctype=None):
